@@ -20,6 +20,8 @@ struct mock_script
     int desc_fails[MOCK_NDEV];       // number of upcoming opens of this device whose describe() fails after a successful open()
     int just_opened[MOCK_NDEV];
     int open_fails[MOCK_NDEV];       // number of upcoming opens of this device that fail (busy / unplugged)
+    int sto_set_fails[MOCK_NDEV];    // number of upcoming set() calls of this storage that reject the settings (AwaitingConfiguration)
+    int sto_reports_consumed;        // a failing append reports how many bytes it had consumed before it failed (kit/storage.h), the fault is transient
     unsigned long log_len;           // number of DRV lines so far (for state digests)
 };
 extern struct mock_script g_mock;
